@@ -22,15 +22,19 @@ structure LogicModel (m : Model (Ext K)) (d : List (DomVar (Ext K))) : Prop wher
   obj : GoodS d m.objective
   cons : ∀ c ∈ m.constraints, SrcD d c
 
-/-- the objective of a model that compiles is defined at every assignment satisfying the domains. -/
-theorem LogicModel.obj_defined {m : Model (Ext K)} {b : BoundsMap (Ext K)} {d : List (DomVar (Ext K))}
-    {lm : LinModel (Ext K)} (hm : LogicModel m d) (h : linearizeWith m b d = .ok lm) : DefOn d m.objective := by
+/-- the objective of a model that compiles has a value wherever no and/or node collapses (finite literals). -/
+theorem obj_defined_at {m : Model (Ext K)} {b : BoundsMap (Ext K)} {d : List (DomVar (Ext K))}
+    {lm : LinModel (Ext K)} (h : linearizeWith m b d = .ok lm) (hf : FinE m.objective) (ρ : String → K)
+    (hnc : NC ρ m.objective) : Def ρ m.objective := by
   obtain ⟨objExp, s1, obj, s2, s3, hsf, hlin, _, _⟩ := (linearizeWith_ok_iff _ _ _ _).mp h
   obtain ⟨oe, hnorm, hs1⟩ := (simplifyFlat_ok _ _ _).mp hsf
   cases hs1
-  intro ρ hd
-  exact def_iff_exists.mp ((def_congr (hm.obj.normalize_eval hnorm ρ hd)).mp
-    (def_of_linExp hlin (finiteLits_normalize hm.obj.fin hnorm) ρ))
+  exact (def_congr (normalize_eval_eq_nc hnorm hnc hf)).mp (def_of_linExp hlin (finiteLits_normalize hf hnorm) ρ)
+
+/-- the objective of a model that compiles is defined at every assignment satisfying the domains. -/
+theorem LogicModel.obj_defined {m : Model (Ext K)} {b : BoundsMap (Ext K)} {d : List (DomVar (Ext K))}
+    {lm : LinModel (Ext K)} (hm : LogicModel m d) (h : linearizeWith m b d = .ok lm) : DefOn d m.objective :=
+  fun ρ hd => def_iff_exists.mp (obj_defined_at h hm.obj.fin ρ (hm.obj.nc ρ hd))
 
 theorem initInvD {m : Model (Ext K)} {b : BoundsMap (Ext K)} {d : List (DomVar (Ext K))}
     (hm : LogicModel m d) (hnd : (d.map (·.name)).Nodup) (hbox : BoxEnforced b d) :
